@@ -268,6 +268,7 @@ pub fn check_raw16(raw: u16) -> Check {
         let h = header_with(noise, noise, raw, 0, 0);
         let pt = no_panic("pattern_type", || h.pattern_type())?;
         ensure_eq!(pt == vcp::PatternType::Constant, raw == 2, "code:pattern_type", "raw {:#06x}", raw);
+        ensure_eq!(format!("{:?}", pt) == "Constant", raw == 2, "code:pattern_type", "raw {:#06x} (variant compared by its Debug rendering)", raw);
     }
     Ok(())
 }
@@ -287,7 +288,7 @@ pub fn check_raw8(raw: u8) -> Check {
         2 => vcp::ChannelConfiguration::SZ2Phase,
         _ => vcp::ChannelConfiguration::UnknownPhase,
     };
-    ensure_eq!(no_panic("channel_configuration", || e.channel_configuration())?, want, "code:channel_configuration", "raw {}", raw);
+    crate::ensure_same!(no_panic("channel_configuration", || e.channel_configuration())?, want, "code:channel_configuration", "raw {}", raw);
 
     let mut c = zero_cut();
     c.channel = noise;
@@ -303,7 +304,7 @@ pub fn check_raw8(raw: u8) -> Check {
         5 => vcp::WaveformType::SPP,
         _ => vcp::WaveformType::Unknown,
     };
-    ensure_eq!(no_panic("waveform_type", || e.waveform_type())?, want, "code:waveform_type", "raw {}", raw);
+    crate::ensure_same!(no_panic("waveform_type", || e.waveform_type())?, want, "code:waveform_type", "raw {}", raw);
 
     let mut c = zero_cut();
     c.channel = noise;
@@ -339,7 +340,7 @@ pub fn check_raw8(raw: u8) -> Check {
         4 => vcp::PulseWidth::Long,
         _ => vcp::PulseWidth::Unknown,
     };
-    ensure_eq!(h.pulse_width(), want, "code:pulse_width", "raw {}", raw);
+    crate::ensure_same!(h.pulse_width(), want, "code:pulse_width", "raw {}", raw);
     Ok(())
 }
 
